@@ -168,3 +168,323 @@ theorem next_error_err (t : Tokenizer) (inv : Inv t) (h : (next t).token = .erro
 
 end Tokenizer
 end Rio.Html
+
+namespace Rio.Html
+namespace Tokenizer
+
+/-! ### a text cut by EOF merges with what follows (the main loop with pending text) -/
+
+@[simp] theorem readByte_rawTag' (t : Tokenizer) : t.readByte.1.rawTag = t.rawTag := by
+  unfold readByte; split <;> rfl
+@[simp] theorem readByte_cdata' (t : Tokenizer) : t.readByte.1.allowCdata = t.allowCdata := by
+  unfold readByte; split <;> rfl
+@[simp] theorem unread_rawTag' (t : Tokenizer) (k : Nat) : (t.unread k).rawTag = t.rawTag := by
+  unfold unread; split <;> rfl
+@[simp] theorem unread_cdata' (t : Tokenizer) (k : Nat) : (t.unread k).allowCdata = t.allowCdata := by
+  unfold unread; split <;> rfl
+
+local macro "tr" : tactic => `(tactic| first | trivial | rfl)
+
+theorem dispatchTag_flush (t : Tokenizer) (b : Nat) (h2 : 2 ≤ t.rawE) (hf : t.rawS < t.rawE - 2) :
+    dispatchTag t b = { t with rawE := t.rawE - 2, dataE := t.rawE - 2, token := .text } := by
+  unfold dispatchTag
+  simp only [Rio.Consts.htmlTagOpenLen]
+  rw [if_neg (by omega), if_pos hf]
+
+theorem readByte_pre {F : Prop} {p : Nat} {t u : Tokenizer} (c : Pre F p t u) (e : EO F u.readByte.1) :
+    Pre F p t.readByte.1 u.readByte.1 ∧ t.readByte.2 = u.readByte.2 ∧ t.readByte.1.rawS = t.rawS ∧
+    t.readByte.1.buf = t.buf := by
+  have c' : Core F p { t with rawS := p + u.rawS, dataS := p + u.dataS, dataE := p + u.dataE } u :=
+    ⟨c.size, c.agree, c.full, rfl, c.rawE, rfl, rfl, c.err, c.rawTag, c.cdata, c.panic, c.hang, c.utf8⟩
+  have r := readByte_sim c' e
+  have h1 : ({ t with rawS := p + u.rawS, dataS := p + u.dataS, dataE := p + u.dataE } : Tokenizer).readByte.2 =
+      t.readByte.2 := by unfold readByte; split <;> rfl
+  have h2 : live ({ t with rawS := p + u.rawS, dataS := p + u.dataS, dataE := p + u.dataE } : Tokenizer).readByte.1 =
+      (t.readByte.1.buf, p + u.rawS, t.readByte.1.rawE, p + u.dataS, p + u.dataE, t.readByte.1.err, t.readByte.1.rawTag,
+        t.readByte.1.allowCdata, t.readByte.1.panic, t.readByte.1.hang, t.readByte.1.utf8Err) := by
+    unfold readByte live; split <;> rfl
+  have p1 := r.1.toPre
+  simp only [live, Prod.mk.injEq] at h2
+  obtain ⟨b1, b2, b3, b4, b5, b6, b7, b8, b9, b10, b11⟩ := h2
+  refine ⟨⟨by rw [← b1]; exact p1.size, by rw [← b1]; exact p1.agree, by rw [← b1]; exact p1.full,
+    by rw [← b3]; exact p1.rawE, by rw [← b6]; exact p1.err, by rw [← b7]; exact p1.rawTag, by rw [← b8]; exact p1.cdata,
+    by rw [← b9]; exact p1.panic, by rw [← b10]; exact p1.hang, by rw [← b11]; exact p1.utf8⟩, by rw [← h1]; exact r.2, ?_, ?_⟩
+  · unfold readByte; split <;> rfl
+  · exact readByte_buf t
+
+theorem unread_pre {F : Prop} {p : Nat} {t u : Tokenizer} (k : Nat) (c : Pre F p t u) (hk : k ≤ u.rawE) :
+    Pre F p (t.unread k) (u.unread k) ∧ (t.unread k).rawS = t.rawS ∧ (t.unread k).buf = t.buf := by
+  unfold unread
+  have hk' : k ≤ t.rawE := by have := c.rawE; omega
+  simp only [hk, hk', if_true]
+  exact ⟨⟨c.size, c.agree, c.full, by simp only; have := c.rawE; omega, c.err, c.rawTag, c.cdata, c.panic, c.hang,
+    c.utf8⟩, by tr, by tr⟩
+
+/-- outcome of the main loop on `t`, which has strictly more pending text than the related `v` -/
+def PendingOut (p : Nat) (t v t' v' : Tokenizer) : Prop :=
+  t'.token = .text ∧ t'.rawS = t.rawS ∧ t'.buf = t.buf ∧
+  ((Pre True p t' v' ∧ v'.rawS = v.rawS ∧ (v'.token = .text ∨ (v'.token = .error ∧ v'.rawE = v.rawS))) ∨
+   (t'.rawE = p + v.rawS ∧ t'.err = false ∧ t'.rawTag = t.rawTag ∧ t'.allowCdata = t.allowCdata))
+
+theorem PendingOut.rebase {p : Nat} {t t1 v v1 t' v' : Tokenizer} (h : PendingOut p t1 v1 t' v')
+    (e1 : t1.rawS = t.rawS) (e2 : t1.buf = t.buf) (e3 : v1.rawS = v.rawS) (e4 : t1.rawTag = t.rawTag)
+    (e5 : t1.allowCdata = t.allowCdata) : PendingOut p t v t' v' := by
+  obtain ⟨h1, h2, h3, h4⟩ := h
+  refine ⟨h1, h2.trans e1, h3.trans e2, ?_⟩
+  rcases h4 with ⟨a, b, c⟩ | ⟨a, b, c, d⟩
+  · exact Or.inl ⟨a, b.trans e3, by rw [← e3]; exact c⟩
+  · exact Or.inr ⟨by rw [← e3]; exact a, b, c.trans e4, d.trans e5⟩
+
+theorem mainLoop_pending {p : Nat} (t v : Tokenizer) (c : Pre True p t v) (okv : Ok v)
+    (hrs : t.rawS < p + v.rawS) (hv : v.rawS ≤ v.rawE) : PendingOut p t v (mainLoop t) (mainLoop v) := by
+  fun_induction mainLoop v generalizing t
+  all_goals (try simp +zetaDelta only at *)
+  case case1 v _ he =>
+    have rb := readByte_pre c (Or.inl trivial)
+    rw [mainLoop]
+    sif' [rb.1.err, he]
+    have hrE := rb.1.rawE
+    have hm := (readByte_adv okv).mono
+    have hlt : t.readByte.1.rawS < t.readByte.1.rawE := by rw [rb.2.2.1, hrE]; omega
+    unfold finishText
+    rw [if_pos hlt]
+    refine ⟨by tr, rb.2.2.1, rb.2.2.2, Or.inl ?_⟩
+    have hvs : v.readByte.1.rawS = v.rawS := (readByte_adv okv).rawS
+    split
+    · exact ⟨⟨rb.1.size, rb.1.agree, rb.1.full, rb.1.rawE, rb.1.err, rb.1.rawTag, rb.1.cdata, rb.1.panic, rb.1.hang,
+        rb.1.utf8⟩, hvs, Or.inl rfl⟩
+    · rename_i hn
+      refine ⟨⟨rb.1.size, rb.1.agree, rb.1.full, rb.1.rawE, rb.1.err, rb.1.rawTag, rb.1.cdata, rb.1.panic, rb.1.hang,
+        rb.1.utf8⟩, hvs, Or.inr ⟨rfl, ?_⟩⟩
+      show v.readByte.1.rawE = v.rawS
+      rw [hvs] at hn; omega
+  case case2 v _ he hne ih =>
+    have rb := readByte_pre c (Or.inl trivial)
+    have a1 := readByte_adv okv
+    rw [mainLoop]
+    sif' [rb.1.err, he, rb.2.1, hne]
+    have := ih _ rb.1 a1.ok (by rw [rb.2.2.1, a1.rawS]; exact hrs) (by rw [a1.rawS]; have := a1.mono; omega)
+    exact this.rebase rb.2.2.1 rb.2.2.2 a1.rawS (by simp) (by simp)
+  case case3 v _ he1 hlt _ he2 =>
+    have rb := readByte_pre c (Or.inl trivial)
+    have rb2 := readByte_pre rb.1 (Or.inl trivial)
+    have a1 := readByte_adv okv
+    have a2 := readByte_adv a1.ok
+    have e1 := readByte_succ he1
+    rw [mainLoop]
+    sif' [rb.1.err, he1, rb.2.1, hlt, rb2.1.err, he2]
+    have hrE := rb2.1.rawE
+    have hlt' : t.readByte.1.readByte.1.rawS < t.readByte.1.readByte.1.rawE := by
+      rw [rb2.2.2.1, rb.2.2.1, hrE]; have := a2.mono; omega
+    have hvs : v.readByte.1.readByte.1.rawS = v.rawS := (a1.trans a2).rawS
+    have hlv : v.readByte.1.readByte.1.rawS < v.readByte.1.readByte.1.rawE := by
+      rw [hvs]; have := a2.mono; omega
+    unfold finishText
+    rw [if_pos hlt', if_pos hlv]
+    exact ⟨by tr, rb2.2.2.1.trans rb.2.2.1, rb2.2.2.2.trans rb.2.2.2, Or.inl
+      ⟨⟨rb2.1.size, rb2.1.agree, rb2.1.full, rb2.1.rawE, rb2.1.err, rb2.1.rawTag, rb2.1.cdata, rb2.1.panic, rb2.1.hang,
+        rb2.1.utf8⟩, hvs, Or.inl (by tr)⟩⟩
+  case case4 v _ he1 hlt _ he2 hnt ih =>
+    have rb := readByte_pre c (Or.inl trivial)
+    have rb2 := readByte_pre rb.1 (Or.inl trivial)
+    have a1 := readByte_adv okv
+    have a2 := a1.trans (read_unread_adv a1.ok he2)
+    have e1 := readByte_succ he1
+    have ur := unread_pre 1 rb2.1 (readByte_pos he2)
+    rw [mainLoop]
+    sif' [rb.1.err, he1, rb.2.1, hlt, rb2.1.err, he2, rb2.2.1, hnt]
+    have := ih _ ur.1 a2.ok (by rw [ur.2.1, rb2.2.2.1, rb.2.2.1, a2.rawS]; exact hrs)
+      (by rw [a2.rawS]; have := a2.mono; omega)
+    exact this.rebase (ur.2.1.trans (rb2.2.2.1.trans rb.2.2.1)) (ur.2.2.trans (rb2.2.2.2.trans rb.2.2.2)) a2.rawS
+      (by simp) (by simp)
+  case case5 v _ he1 hlt _ he2 hnt =>
+    have rb := readByte_pre c (Or.inl trivial)
+    have rb2 := readByte_pre rb.1 (Or.inl trivial)
+    have a1 := readByte_adv okv
+    have a2 := readByte_adv a1.ok
+    have a12 := a1.trans a2
+    have e1 := readByte_succ he1
+    have e2 := readByte_succ he2
+    rw [mainLoop]
+    sif' [rb.1.err, he1, rb.2.1, hlt, rb2.1.err, he2, rb2.2.1, hnt]
+    have hrE := rb2.1.rawE
+    have hTs : t.readByte.1.readByte.1.rawS = t.rawS := rb2.2.2.1.trans rb.2.2.1
+    have hVs : v.readByte.1.readByte.1.rawS = v.rawS := a12.rawS
+    have hTerr : t.readByte.1.readByte.1.err = false := by rw [rb2.1.err]; simpa using he2
+    have hfl : t.readByte.1.readByte.1.rawS < t.readByte.1.readByte.1.rawE - 2 := by rw [hTs]; omega
+    rw [dispatchTag_flush _ _ (by omega) hfl]
+    refine ⟨by tr, hTs, rb2.2.2.2.trans rb.2.2.2, ?_⟩
+    by_cases hx : v.readByte.1.readByte.1.rawS < v.readByte.1.readByte.1.rawE - 2
+    · rw [dispatchTag_flush _ _ (by omega) hx]
+      exact Or.inl ⟨⟨rb2.1.size, rb2.1.agree, rb2.1.full, by simp only; omega, rb2.1.err, rb2.1.rawTag, rb2.1.cdata,
+        rb2.1.panic, rb2.1.hang, rb2.1.utf8⟩, hVs, Or.inl (by tr)⟩
+    · refine Or.inr ⟨?_, hTerr, by simp, by simp⟩
+      show t.readByte.1.readByte.1.rawE - 2 = p + v.rawS
+      rw [hVs] at hx; omega
+
+theorem readByte_state {t : Tokenizer} (h : t.rawE < t.buf.size) :
+    t.readByte = ({ t with rawE := t.rawE + 1 }, t.buf[t.rawE]) := by
+  unfold readByte; simp only [h, dite_true]
+
+/-- the main loop runs over bytes that are not `<` -/
+theorem mainLoop_skip (k : Nat) (t : Tokenizer) (herr : t.err = false) (hin : t.rawE + k ≤ t.buf.size)
+    (hno : ∀ i, i < k → t.buf[t.rawE + i]? ≠ some 60) : mainLoop t = mainLoop { t with rawE := t.rawE + k } := by
+  induction k generalizing t with
+  | zero => rfl
+  | succ k ih =>
+    have hlt : t.rawE < t.buf.size := by omega
+    have hb : t.buf[t.rawE] ≠ 60 := by
+      have := hno 0 (by omega)
+      simp only [Nat.add_zero, Array.getElem?_eq_getElem hlt] at this
+      intro h; exact this (by rw [h])
+    rw [mainLoop, readByte_state hlt]
+    have he' : ¬ ({ t with rawE := t.rawE + 1 } : Tokenizer).err = true := by
+      show ¬ t.err = true; rw [herr]; exact Bool.false_ne_true
+    have hne : (t.buf[t.rawE] != 60) = true := by simpa using hb
+    simp only []
+    rw [dif_neg he', if_pos hne]
+    have := ih { t with rawE := t.rawE + 1 } herr (by simp only; omega) (by
+      intro i hi
+      have := hno (i + 1) (by omega)
+      simp only at this ⊢
+      rw [show t.rawE + 1 + i = t.rawE + (i + 1) by omega]; exact this)
+    rw [this]
+    simp only
+    rw [show t.rawE + 1 + k = t.rawE + (k + 1) by omega]
+
+end Tokenizer
+end Rio.Html
+
+namespace Rio.Filter
+open Rio.Html Rio.Html.Tokenizer
+
+/-! ### related tokenizers produce the same token lists -/
+
+theorem restL_sim {F : Prop} {p : Nat} {t u : Tokenizer} (c : Pre F p t u) (f : F) (hu : u.rawE ≤ u.buf.size) :
+    restL t = restL u := by
+  unfold restL
+  have := c.extract u.rawE u.buf.size hu (Nat.le_refl _)
+  rw [c.rawE, ← c.full f]
+  exact this
+
+theorem tokOf_sim {F : Prop} {p : Nat} {t u : Tokenizer} (c : CoreT F p t u) (inv : Tokenizer.Inv u) (sp : Spans u) :
+    tokOf t = tokOf u := by
+  unfold tokOf
+  rw [c.2, c.rawL inv, c.dataL inv sp]
+
+theorem toksGo_sim_full {p : Nat} : ∀ (n : Nat) (t u : Tokenizer), Pre True p t u → Tokenizer.Inv t → Tokenizer.Inv u →
+    toksGo n t = toksGo n u
+  | 0, t, u, c, _, iu => by simp only [toksGo]; rw [restL_sim c trivial iu.ok.le]
+  | n + 1, t, u, c, it, iu => by
+    have s := next_sim t u c iu (Or.inl trivial)
+    have iu1 := next_inv' u iu
+    have it1 := next_inv' t it
+    have sp := (next_post u iu).spans
+    simp only [toksGo, s.2]
+    rw [tokOf_sim s iu1 sp, s.rawL iu1, restL_sim s.1.toPre trivial iu1.ok.le,
+      toksGo_sim_full n _ _ s.1.toPre it1 iu1]
+
+/-- two tokenizers whose remaining inputs coincide (window reaching the end), at corresponding positions with equal
+control state, produce the same tokens and the same remainder -/
+theorem toks_sim_full {p : Nat} (t u : Tokenizer) (c : Pre True p t u) (it : Tokenizer.Inv t) (iu : Tokenizer.Inv u) :
+    toks t = toks u := by
+  unfold toks
+  have hsz : t.buf.size - t.rawE = u.buf.size - u.rawE := by
+    have := c.full trivial; have := c.rawE; omega
+  rw [hsz]
+  exact toksGo_sim_full _ t u c it iu
+
+/-- **RESTART on the level of token lists**: at a token boundary with `raw_tag = ""`, EOF not reached, the remaining
+tokens are those of a fresh tokenizer on the unread bytes -/
+theorem toks_restart (t : Tokenizer) (inv : Tokenizer.Inv t) (herr : t.err = false) (htag : t.rawTag = [])
+    (hcd : t.allowCdata = true) : toks t = toks (restartOf t) :=
+  toks_sim_full t (restartOf t) (pre_restart t inv herr htag hcd) inv
+    ⟨Nat.le_refl _, ⟨Nat.zero_le _, rfl, rfl, rfl⟩, TagOk_nil⟩
+
+/-! ### prefix stability on the level of token lists -/
+
+/-- `k` calls of `next` (unfolding at the front) -/
+def nextsF : Nat → Tokenizer → Tokenizer
+  | 0, t => t
+  | k + 1, t => nextsF k (Tokenizer.next t)
+
+/-- the first `k` tokens -/
+def firstToks : Nat → Tokenizer → List Tok
+  | 0, _ => []
+  | k + 1, t => tokOf (Tokenizer.next t) :: firstToks k (Tokenizer.next t)
+
+theorem nextsF_inv (k : Nat) (t : Tokenizer) (inv : Tokenizer.Inv t) : Tokenizer.Inv (nextsF k t) := by
+  induction k generalizing t with
+  | zero => exact inv
+  | succ k ih => exact ih _ (next_inv' t inv)
+
+theorem nextsF_err_sticky (k : Nat) (t : Tokenizer) (h : t.err = true) : (nextsF k t).err = true := by
+  induction k generalizing t with
+  | zero => exact h
+  | succ k ih => exact ih _ (next_err_sticky t h)
+
+theorem nextsF_cdata (k : Nat) (t : Tokenizer) (inv : Tokenizer.Inv t) : (nextsF k t).allowCdata = t.allowCdata := by
+  induction k generalizing t with
+  | zero => rfl
+  | succ k ih => exact (ih _ (next_inv' t inv)).trans (next_extra t inv).1
+
+theorem nextsF_buf (k : Nat) (t : Tokenizer) (inv : Tokenizer.Inv t) : (nextsF k t).buf = t.buf := by
+  induction k generalizing t with
+  | zero => rfl
+  | succ k ih => exact (ih _ (next_inv' t inv)).trans (next_buf' t inv)
+
+/-- if EOF has not been hit after `k` calls, the first `k` tokens are proper tokens and `toks` splits there -/
+theorem toks_split (k : Nat) (t : Tokenizer) (inv : Tokenizer.Inv t) (hk : (nextsF k t).err = false) :
+    toks t = (firstToks k t ++ (toks (nextsF k t)).1, (toks (nextsF k t)).2) := by
+  induction k generalizing t with
+  | zero => simp [firstToks, nextsF]
+  | succ k ih =>
+    have i1 := next_inv' t inv
+    have hne : ¬ ((Tokenizer.next t).token == TokenType.error) = true := by
+      intro he
+      have he' : (Tokenizer.next t).token = .error := by simpa using he
+      have := nextsF_err_sticky k _ (next_error_err t inv he')
+      simp only [nextsF] at hk
+      rw [this] at hk; cases hk
+    rw [toks_unfold t inv, if_neg hne, ih _ i1 hk]
+    simp [firstToks, nextsF]
+
+/-- **PREFIX STABILITY on the level of token lists**: if EOF has not been hit after `k` calls on the window `u`, then
+the big buffer yields the same first `k` tokens and continues from a related state -/
+theorem toks_prefix (k : Nat) (T u : Tokenizer) (c : Pre False 0 T u) (iT : Tokenizer.Inv T) (iu : Tokenizer.Inv u)
+    (hk : (nextsF k u).err = false) :
+    toks T = (firstToks k u ++ (toks (nextsF k T)).1, (toks (nextsF k T)).2) ∧ Pre False 0 (nextsF k T) (nextsF k u) := by
+  induction k generalizing T u with
+  | zero => exact ⟨by simp [firstToks, nextsF], c⟩
+  | succ k ih =>
+    have herr1 : (Tokenizer.next u).err = false := by
+      cases h : (Tokenizer.next u).err with
+      | false => rfl
+      | true => have := nextsF_err_sticky k _ h; simp only [nextsF] at hk; rw [this] at hk; cases hk
+    have s := next_sim T u c iu (Or.inr herr1)
+    have iu1 := next_inv' u iu
+    have iT1 := next_inv' T iT
+    have sp := (next_post u iu).spans
+    have hne : ¬ ((Tokenizer.next T).token == TokenType.error) = true := by
+      rw [s.2]
+      intro he
+      have he' : (Tokenizer.next u).token = .error := by simpa using he
+      rw [next_error_err u iu he'] at herr1; cases herr1
+    have r := ih _ _ s.1.toPre iT1 iu1 hk
+    refine ⟨?_, r.2⟩
+    rw [toks_unfold T iT, if_neg hne, r.1, tokOf_sim s iu1 sp]
+    simp [firstToks, nextsF]
+
+theorem toks_error (t : Tokenizer) (inv : Tokenizer.Inv t) (h : (Tokenizer.next t).token = .error) :
+    toks t = ([], restL t) := by
+  have hi1 := next_inv' t inv
+  have hb := next_buf' t inv
+  have hs := next_rawS' t inv
+  rw [toks_unfold t inv, if_pos (by simpa using h)]
+  unfold restL rawL
+  rw [hb, hs]
+  rw [← extract_split t.buf t.rawE (Tokenizer.next t).rawE t.buf.size (by rw [← hs]; exact hi1.raw)
+    (by rw [← hb]; exact hi1.ok.le)]
+
+end Rio.Filter
+
